@@ -391,7 +391,7 @@ def lean_char(c):
     if c == '\n': return "'\\n'"
     if c == '\t': return "'\\t'"
     if c == '\r': return "'\\r'"
-    if o < 32 or o == 127: return "(Char.ofNat %d)" % o
+    if o < 32 or o == 127: return "'\\x%02x'" % o
     return "'%s'" % c
 
 
@@ -965,6 +965,52 @@ def translate(repo):
             report['untranslated'][key] = '%s: %s' % (type(e).__name__, e)
             out.append('-- UNTRANSLATED %s: %s' % (key, str(e).replace('\n', ' ')[:300]))
             em.needs_pf[nm] = PF_DEFAULT.get(nm, False)
+
+    # ---- _parse / parse: statement skeleton with holes (leading-options parser, the two `-true` tokens)
+    try:
+        it, itp = items.get('_parse'), items.get('parse')
+        if it is None or itp is None: raise Untranslatable('item not found')
+        toks = it.body
+        txt = text_of(toks)
+        head = ('let mut globals = RunOptions :: default ( ) ; winnow :: Parser :: < & str , Vec < GlobalOption > , '
+                'winnow :: error :: ContextError > :: parse_next ( & mut ')
+        if not txt.startswith(head): raise Untranslatable('_parse head changed')
+        i0 = len(tokenize(head.replace(' ', ' ')))  # token count of the head
+        # find the '& mut' expression: tokens from i0 up to the depth-0 comma
+        k, depth = i0, 0
+        while not (toks[k].v == ',' and depth == 0):
+            if toks[k].k == 'p' and toks[k].v in OPEN: depth += 1
+            if toks[k].k == 'p' and toks[k].v in CLOSE: depth -= 1
+            k += 1
+        pexpr = Parser(toks[i0:k]); e = pexpr.expr()
+        if not pexpr.done(): raise Untranslatable('_parse leading-options expression')
+        em.env, em.uses_pf, em.file = {}, False, 'mod.rs'
+        lead = em.parser(e)
+        rest = text_of(toks[k:])
+        m = re.fullmatch(r', input ,? ?\) \? \. iter \( \) \. for_each \( \| g : & GlobalOption \| globals \. update \( g \) \) ; '
+                         r'let tokens = if input \. is_empty \( \) \{ vec ! \[ (?P<empty>.*?) \] \} else \{ lex \. parse_next \( input \) \? \} ; '
+                         r'let tokens : Vec < Token > = tokens \. into_iter \( \) \. enumerate \( \) \. map \( \| \( i , t \) \| match t \{ '
+                         r'Token :: Global \( v \) => \{ log :: warn ! \( .*? \) ; globals \. update \( & v \) ; (?P<repl>.*?) \} token => token , \} \) \. collect \( \) ; '
+                         r'log :: debug ! \( "Tokens: \{:\?\}" , tokens \) ; '
+                         r'Ok \( \( globals , precedence :: parser \. parse_next \( & mut tokens \. as_slice \( \) \) \? , \) \)', rest)
+        if not m: raise Untranslatable('_parse does not have the shape the model was transcribed from')
+        def tok_of(t):
+            mm = re.fullmatch(r'Token :: Test \( Test :: (\w+) \)', t.strip())
+            if not mm: raise Untranslatable('_parse token ' + t)
+            return '(Token.test %s)' % ctor(['Test', mm.group(1)])
+        ptxt = text_of(itp.body)
+        if ptxt != ('let mut input : & str = input . as_ref ( ) ; _parse ( & mut input ) . or_else ( | e | { Err ( error :: ParserError :: dispatch ( '
+                    'e . into_inner ( ) . unwrap ( ) , & mut input , ) ) } )'):
+            raise Untranslatable('parse() changed')
+        out.append('/-- the leading-options parser of `_parse` (mod.rs) -/')
+        out.append('def leadingGlobals (pf : Profile) : P Char (List GlobalOption) :=\n  %s\n' % lead)
+        out.append('/-- `_parse` + `parse` (mod.rs): statement skeleton `parseWith` (Gen/Support.lean) with the parts read from the source -/')
+        out.append('def parse (pf : Profile) (input : Text) : ParseOut :=\n  parseWith (leadingGlobals pf) [%s] %s (lex pf) RunOptions.update (FV.climb pf) FV.dispatch input\n'
+                   % (tok_of(m.group('empty')), tok_of(m.group('repl'))))
+        report['translated'].append('_parse'); report['translated'].append('parse')
+    except Exception as e:
+        report['untranslated']['_parse'] = '%s: %s' % (type(e).__name__, str(e)[:300])
+        out.append('-- UNTRANSLATED _parse: %s' % str(e)[:300])
     for key, (lean, want) in FINGERPRINTS.items():
         k = key
         it = items.get(k)
@@ -972,7 +1018,7 @@ def translate(repo):
         report['fingerprints'][key] = {'model': lean, 'ok': got == want}
         if got != want:
             report['untranslated'][key] = 'plain-Rust helper changed (fingerprint): ' + (got or 'missing')[:300]
-    known = set(ORDER) | set(FINGERPRINTS)
+    known = set(ORDER) | set(FINGERPRINTS) | {'_parse', 'parse'}
     for k in items:
         if k not in known:
             report['not_modelled_here'].append(k)
@@ -1147,16 +1193,16 @@ def translate_tables(repo):
             srcs[rel] = {it.key: it for it in extract_items(os.path.join(repo, 'src', rel))}
         return srcs[rel]
 
+    chunks = {}
     def emit(name, key, rel, fn):
         try:
             it = items_of(rel).get(key)
             if it is None: raise Untranslatable('item not found')
-            out.append('/-- `%s` (%s) -/' % (key, rel))
-            out.append(fn(it) + '\n')
+            chunks[name] = ['/-- `%s` (%s) -/' % (key, rel), fn(it) + '\n']
             report['translated'].append(key)
-        except (Untranslatable, PErr, KeyError, IndexError, ValueError, AssertionError) as e:
+        except Exception as e:
             report['untranslated'][key] = '%s: %s' % (type(e).__name__, str(e)[:300])
-            out.append('-- UNTRANSLATED %s: %s' % (key, str(e).replace('\n', ' ')[:300]))
+            chunks[name] = ['-- UNTRANSLATED %s: %s' % (key, str(e).replace('\n', ' ')[:300])]
 
     def numeric_table(lean_name, ty, scrut='self'):
         def f(it):
@@ -1276,10 +1322,565 @@ def translate_tables(repo):
         report['delegated_arms']['Test::compile'] = ndeleg
         return ('def compileTest (clk : Nat → Nat) (t : Test) (st : CState) : CRes (Text × CState) :=\n  match t with\n%s' % '\n'.join(rows))
     emit('compileTest', 'Test::compile', 'scheme/target_scheme.rs', test_compile)
+
+    # ---- format_cmp! (both arms), size_matching, compile_perm_check, impl TargetScheme for Action
+    def fmt_named(fmt, env_):
+        """format string with {} / {name} placeholders -> list of pieces: ('s', text) | ('v', index or name)"""
+        out, i, k = [], 0, 0
+        cur = ''
+        while i < len(fmt):
+            c = fmt[i]
+            if c == '{' and i + 1 < len(fmt) and fmt[i + 1] == '{': cur += '{'; i += 2; continue
+            if c == '}' and i + 1 < len(fmt) and fmt[i + 1] == '}': cur += '}'; i += 2; continue
+            if c == '{':
+                j = fmt.index('}', i)
+                name = fmt[i + 1:j]
+                if cur: out.append(('s', cur)); cur = ''
+                if name == '': out.append(('v', k)); k += 1
+                else: out.append(('v', name))
+                i = j + 1; continue
+            cur += c; i += 1
+        if cur: out.append(('s', cur))
+        return out
+
+    def join_pieces(pieces, args):
+        parts = []
+        for kind, v in pieces:
+            if kind == 's': parts.append(lean_cl(v))
+            else:
+                if isinstance(v, int):
+                    if v >= len(args): raise Untranslatable('format arguments')
+                    parts.append(args[v])
+                else:
+                    if v not in args_named: raise Untranslatable('format placeholder {%s}' % v)
+                    parts.append(args_named[v])
+        return ' ++ '.join(parts) if parts else '[]'
+    args_named = {}
+
+    def format_cmp(it):
+        # macro_rules! format_cmp { ($cmp, $target) => { match $cmp {..} }; ($cmp, $lhs, $rhs) => { match $cmp {..} }; }
+        toks = it.body
+        raise Untranslatable('handled by format_cmp_arms')
+
+    def macro_arms(rel, name):
+        toks = tokenize(open(os.path.join(repo, 'src', rel)).read())
+        for i, t in enumerate(toks):
+            if t.k == 'id' and t.v == 'macro_rules' and toks[i + 1].v == '!' and toks[i + 2].v == name:
+                ob = i + 3; cb = match_close(toks, ob)
+                arms, k = [], ob + 1
+                while k < cb:
+                    pc = match_close(toks, k)
+                    params = [x.v for j, x in enumerate(toks[k + 1:pc]) if x.k == 'id' and toks[k + j].v == '$']
+                    assert toks[pc + 1].v == '=>'
+                    bo = pc + 2; bc = match_close(toks, bo)
+                    arms.append((params, toks[bo + 1:bc]))
+                    k = bc + 1
+                    if k < cb and toks[k].v == ';': k += 1
+                return arms
+        raise Untranslatable('macro %s not found' % name)
+
+    def cmp_arm(lean_name, params, body, sig):
+        # body: match $cmp { Comparison::X(n) => format!(FMT, A, B), ... }
+        if text_of(body[:4]) != 'match $ %s {' % params[0]: raise Untranslatable('format_cmp arm head')
+        e = match_close(body, 3)
+        rows = []
+        for pats, rhs in split_arms(body[4:e]):
+            pl, bd = lean_pattern(pats[0])
+            m = re.fullmatch(r'format ! \( ("(?:[^"\\]|\\.)*") , (.*) \)', text_of(rhs))
+            if not m: raise Untranslatable('format_cmp arm value ' + text_of(rhs))
+            fmt = json.loads(m.group(1))
+            args = []
+            for a in m.group(2).split(' , '):
+                a = a.strip()
+                mm = re.fullmatch(r'\$ (\w+) \( (\w+) \)', a)
+                if mm and mm.group(2) in bd: args.append('%s %s' % (mm.group(1), mm.group(2)))
+                elif re.fullmatch(r'\$ (\w+)', a): args.append(a.split(' ')[1])
+                elif a in bd: args.append('nat ' + a)
+                else: raise Untranslatable('format_cmp argument ' + a)
+            rows.append('  | %s => %s' % (pl, join_pieces(fmt_named(fmt, None), args)))
+        return 'def %s %s :=\n  match %s with\n%s' % (lean_name, sig, params[0], '\n'.join(rows))
+
+    try:
+        arms = macro_arms('scheme/target_scheme.rs', 'format_cmp')
+        if len(arms) != 2 or arms[0][0] != ['cmp', 'target'] or arms[1][0] != ['cmp', 'lhs', 'rhs']:
+            raise Untranslatable('format_cmp! arms changed: %r' % [a[0] for a in arms])
+        chunks['formatCmp'] = ['/-- `format_cmp!($cmp, $target)` (scheme/target_scheme.rs) -/',
+            cmp_arm('formatCmp', arms[0][0], arms[0][1], '(cmp : Comparison Nat) (target : Text) : Text') + '\n',
+            '/-- `format_cmp!($cmp, $lhs, $rhs)` (scheme/target_scheme.rs) -/',
+            cmp_arm('formatCmp2', arms[1][0], arms[1][1], '{α : Type} (cmp : Comparison α) (lhs rhs : α → Text) : Text') + '\n']
+        report['translated'].append('format_cmp!')
+    except (Untranslatable, PErr, KeyError, IndexError, ValueError, AssertionError) as e:
+        report['untranslated']['format_cmp!'] = '%s: %s' % (type(e).__name__, str(e)[:300])
+        chunks['formatCmp'] = ['-- UNTRANSLATED format_cmp!: %s' % str(e)[:300]]
+
+    def size_matching(it):
+        a, b = find_match(it.body, 'size')
+        rows = []
+        for pats, rhs in split_arms(it.body[a:b]):
+            sr = string_rhs(rhs)
+            if sr is not None: val = lean_cl(sr)
+            else:
+                m = re.fullmatch(r'format ! \( ("(?:[^"\\]|\\.)*") , size \. mult \( \) \)', text_of(rhs))
+                if not m: raise Untranslatable('size_matching arm ' + text_of(rhs))
+                val = None; fmt = json.loads(m.group(1))
+            for p_ in pats:
+                pl, bd = lean_pattern(p_)
+                if val is not None:
+                    rows.append('  | %s => %s' % (pl, val))
+                else:
+                    pn = pl.replace('_', 'n')
+                    rows.append('  | %s => %s' % (pn, join_pieces(fmt_named(fmt, None), ['nat (Size.mult (%s))' % pn])))
+        return 'def sizeMatching : Size → Text\n%s' % '\n'.join(rows)
+    emit('sizeMatching', 'size_matching', 'scheme/target_scheme.rs', size_matching)
+
+    def perm_check(it):
+        txt = text_of(it.body)
+        m = re.fullmatch(r'let \( PermCheck :: Any \( p \) \| PermCheck :: AtLeast \( p \) \| PermCheck :: Equal \( p \) \) = check ; '
+                         r'let perm_mask = \( (.*?) \) \. bits \( \) ; let perm = p \. 0 \. bits \( \) ; '
+                         r'let code = match check \{ (.*) \} ; buffer \. push_str \( & code \)', txt)
+        if not m: raise Untranslatable('compile_perm_check shape changed')
+        a, b = find_match(it.body, 'check')
+        mask_toks = []
+        # tokens of the mask expression
+        i0 = [i for i, t in enumerate(it.body) if t.k == 'id' and t.v == 'perm_mask'][0]
+        j0 = i0 + 3
+        j1 = match_close(it.body, i0 + 2)
+        mask = flags_value(it.body[j0:j1], consts)
+        if mask is None: raise Untranslatable('perm_mask expression')
+        rows = []
+        for pats, rhs in split_arms(it.body[a:b]):
+            pl, bd = lean_pattern(pats[0])
+            mm = re.fullmatch(r'format ! \( ("(?:[^"\\]|\\.)*") , (.*) \)', text_of(rhs))
+            if not mm: raise Untranslatable('compile_perm_check arm ' + text_of(rhs))
+            args = []
+            for x in mm.group(2).split(' , '):
+                x = x.strip()
+                if x == 'perm_mask': args.append('nat %d' % mask)
+                elif x == 'perm': args.append('nat perm')
+                else: raise Untranslatable('compile_perm_check argument ' + x)
+            rows.append('  | %s => %s' % (pl.replace(' p', ' perm'), join_pieces(fmt_named(json.loads(mm.group(1)), None), args)))
+        return 'def compilePermCheck : PermCheck → Text\n%s' % '\n'.join(rows)
+    emit('compilePermCheck', 'compile_perm_check', 'scheme/target_scheme.rs', perm_check)
+
+    ACTION_DELEGATED = ['{ return Err ( CompileError :: UnsupportedAction ( format ! ( "{self:?}" ) ) ) ; }']
+    def opt_char(txt):
+        m = re.fullmatch(r"Some \( ('(?:[^'\\]|\\.)+') \)", txt)
+        if txt == 'None': return 'none'
+        if m:
+            lit = m.group(1)[1:-1]
+            ch = {'\\n': '\n', '\\0': '\0', '\\x00': '\0', '\\t': '\t', '\\r': '\r'}.get(lit, lit)
+            return '(some %s)' % lean_char(ch)
+        raise Untranslatable('terminator ' + txt)
+
+    def getter(txt, bd):
+        m = re.fullmatch(r'ctx \. get_printer \( (.*) \)', txt)
+        if m: return 'st.mgr.getPrinter %s' % opt_char(m.group(1))
+        m = re.fullmatch(r'ctx \. get_file_printer \( (\w+) , (.*) \)', txt)
+        if m and m.group(1) in bd: return 'st.mgr.getFilePrinter %s %s' % (m.group(1), opt_char(m.group(2)))
+        raise Untranslatable('printer request ' + txt)
+
+    def action_arm(rhs, bd):
+        txt = text_of(rhs)
+        m = re.fullmatch(r'buffer \. push_str \( ("(?:[^"\\]|\\.)*") \)', txt)
+        if m: return '.ok (%s, st)' % lean_cl(json.loads(m.group(1)))
+        m = re.fullmatch(r'\{ let printer = ([^;]*?) ; buffer \. push_str \( & format ! \( ("(?:[^"\\]|\\.)*") \) \)(?: ;)? \}', txt)
+        if m:
+            args_named.clear(); args_named['printer'] = 'printer'
+            return 'viaT st (fun printer => %s) (%s)' % (join_pieces(fmt_named(json.loads(m.group(2)), None), []), getter(m.group(1), bd))
+        m = re.fullmatch(r'\{ let printer = ([^;]*?) ; buffer \. push_str \( & format ! \( ("(?:[^"\\]|\\.)*") \) \) ; (\w+) \. compile \( buffer , ctx \) \? ; '
+                         r'buffer \. push_str \( & format ! \( ("(?:[^"\\]|\\.)*") \) \) ; \}', txt)
+        if m and m.group(3) in bd:
+            args_named.clear(); args_named['printer'] = 'printer'
+            pre = join_pieces(fmt_named(json.loads(m.group(2)), None), [])
+            post = join_pieces(fmt_named(json.loads(m.group(4)), None), [])
+            return 'viaFormatT st (fun printer f => %s ++ f ++ %s) (%s) %s' % (pre, post, getter(m.group(1), bd), m.group(3))
+        return None
+
+    def action_compile(it):
+        a, b = find_match(it.body, 'self')
+        if text_of(it.body[b + 1:]) != 'Ok ( ( ) )': raise Untranslatable('tail of Action::compile changed')
+        rows, ndeleg = [], 0
+        for pats, rhs in split_arms(it.body[a:b]):
+            for p_ in pats:
+                pl, bd = lean_pattern(p_)
+                r = action_arm(rhs, bd)
+                if r is None:
+                    if text_of(rhs) not in ACTION_DELEGATED:
+                        raise Untranslatable('arm of Action::compile is neither a known shape nor the text the model was transcribed from: ' + text_of(rhs)[:200])
+                    ndeleg += 1
+                    args = pl.split(' ')[1:]
+                    names = ['a%d' % k for k in range(len(args))]
+                    pl = ' '.join([pl.split(' ')[0]] + names)
+                    r = 'FV.compileAction (%s) st' % pl
+                rows.append('  | %s => %s' % (pl, r))
+        report['delegated_arms']['Action::compile'] = ndeleg
+        return ('def compileAction (a : Action) (st : CState) : CRes (Text × CState) :=\n  match a with\n%s' % '\n'.join(rows))
+    emit('compileAction', 'Action::compile', 'scheme/target_scheme.rs', action_compile)
+
+    # ---- CompiledExpression::scheme: the program template
+    def camel(x):
+        parts = x.split('_')
+        return parts[0] + ''.join(w.capitalize() for w in parts[1:])
+
+    def scheme_fn(it):
+        txt = text_of(it.body)
+        m = re.fullmatch(r'let mdt = manager :: scheme_escape \( mdt \. as_ref \( \) \) ; format ! \( ("(?:[^"\\]|\\.)*") , (.*?) ,? \)', txt)
+        if not m: raise Untranslatable('scheme() shape changed')
+        fmt = json.loads(m.group(1))
+        args = []
+        for a in m.group(2).split(' , '):
+            mm = re.fullmatch(r'self \. (\w+)', a.strip())
+            if not mm: raise Untranslatable('scheme() argument ' + a)
+            args.append('c.' + camel(mm.group(1)))
+        args_named.clear(); args_named['mdt'] = 'schemeEscape mdt'
+        return 'def scheme (c : Compiled) (mdt : Text) : Text :=\n  ' + join_pieces(fmt_named(fmt, None), args)
+    emit('scheme', 'CompiledExpression::scheme', 'scheme/mod.rs', scheme_fn)
+
+    # ---- scheme::compile: which manager, whether the default print is added, the options text (skeleton with holes)
+    def compile_fn(it):
+        txt = text_of(it.body)
+        pat = (r'let mut policy_body = String :: new \( \) ; '
+               r'let mut manager : Box < dyn SchemeManager > = if (?P<mcond>!? ?exp \. complex_frames \( \)) \{ Box :: new \( (?P<m1>\w+) :: default \( \) \) \} else \{ Box :: new \( (?P<m2>\w+) :: default \( \) \) \} ; '
+               r'let target = if (?P<tcond>!? ?exp \. action \( \)) \{ (?P<t1>.*?) \} else \{ (?P<t2>.*?) \} ; '
+               r'target \. compile \( & mut policy_body , & mut \* manager \) \? ; '
+               r'let options = options \. threads \. and_then \( \| c \| Some \( c \. to_string \( \) \) \) \. unwrap_or \( String :: from \( (?P<dflt>"(?:[^"\\]|\\.)*") \) \) ; '
+               r'Ok \( CompiledExpression \{ policy_body , options , modules : manager \. modules \( \) \. into \( \) , definitions : manager \. definitions \( \) , '
+               r'initialization : manager \. initialization \( \) , terminate : manager \. terminate \( \) , io_map : manager \. printer_map \( \) , \} \)')
+        m = re.fullmatch(pat, txt)
+        if not m: raise Untranslatable('compile() does not have the shape the model was transcribed from')
+        mgrs = {'DistributedSchemeManager': 'Manager.distInit', 'LocalSchemeManager': 'Manager.localInit'}
+        def cond(c, what):
+            neg = c.startswith('!')
+            return ('!' if neg else '') + what
+        def tgt(t):
+            t = t.strip()
+            if t == 'exp . clone ( )': return 'e'
+            if t == 'Expression :: Operator ( Rc :: new ( Operator :: And ( exp . clone ( ) , Expression :: Action ( Action :: DefaultPrint ) , ) ) )':
+                return 'Expr.and e (.action .defaultPrint)'
+            raise Untranslatable('compile() target branch ' + t)
+        if m.group('m1') not in mgrs or m.group('m2') not in mgrs: raise Untranslatable('compile() manager')
+        return ('def compile (clk : Nat → Nat) (e : Expr) (o : RunOptions) : CRes Compiled :=\n'
+                '  let mgr := if %s then %s else %s\n'
+                '  let target := if %s then %s else %s\n'
+                '  match compileExpr clk target { mgr := mgr } with\n'
+                '  | .err x => .err x\n  | .panic s => .panic s\n'
+                '  | .ok (body, st) =>\n'
+                '    .ok { policyBody := body,\n'
+                '          options := match o.threads with\n            | some c => nat c\n            | none => %s,\n'
+                '          modules := st.mgr.modules, definitions := st.mgr.definitions, initialization := st.mgr.initialization,\n'
+                '          terminate := st.mgr.terminate, ioMap := st.mgr.printerMap }'
+                % (cond(m.group('mcond'), 'complexFrames e'), mgrs[m.group('m1')], mgrs[m.group('m2')],
+                   cond(m.group('tcond'), 'hasAction e'), tgt(m.group('t1')), tgt(m.group('t2')), lean_cl(json.loads(m.group('dflt')))))
+
+    # ---- Expression::action / Expression::complex_frames (ast.rs): recursive match functions over the tree
+    OPMAP = {'Precedence': '.prec', 'Not': '.not', 'And': '.and', 'Or': '.or', 'List': '.list'}
+    PF_DELEG = ("{ format . last ( ) . is_some_and ( | el : & FormatElement | { ! matches ! ( el , FormatElement :: Special ( FormatSpecial :: Newline ) ) } ) }")
+
+    def bool_rhs(rhs, fname):
+        out_ = []
+        i = 0
+        if rhs and rhs[0].v == '{' and rhs[-1].v == '}' and match_close(rhs, 0) == len(rhs) - 1:
+            rhs = rhs[1:-1]
+        while i < len(rhs):
+            t = rhs[i]
+            if t.k == 'id' and i + 4 < len(rhs) + 1 and text_of(rhs[i + 1:i + 5]) in ('. action ( )', '. complex_frames ( )'):
+                meth = rhs[i + 2].v
+                out_.append('(%s %s)' % ('hasAction' if meth == 'action' else 'complexFrames', t.v)); i += 5; continue
+            if t.k == 'id' and t.v in ('true', 'false'): out_.append(t.v); i += 1; continue
+            if t.k == 'p' and t.v == '||': out_.append('||'); i += 1; continue
+            raise Untranslatable('boolean expression ' + text_of(rhs))
+        return ' '.join(out_)
+
+    def op_pattern(pat):
+        m = re.fullmatch(r'Operator :: (\w+) \( (.*) \)', text_of(pat))
+        if not m or m.group(1) not in OPMAP: raise Untranslatable('operator pattern ' + text_of(pat))
+        return OPMAP[m.group(1)] + ''.join(' ' + a.strip() for a in m.group(2).split(','))
+
+    def tree_fn(lean_name, fname):
+        def f(it):
+            a, b = find_match(it.body, 'self')
+            if it.body[b + 1:]: raise Untranslatable('tail')
+            rows = []
+            for pats, rhs in split_arms(it.body[a:b]):
+                ptxt = text_of(pats[0])
+                if len(pats) == 1 and ptxt == '_':
+                    rows.append('  | _ => %s' % bool_rhs(rhs, fname)); continue
+                m = re.fullmatch(r'Expression :: (\w+) \( (\w+) \)', ptxt)
+                if not m or len(pats) != 1: raise Untranslatable('tree pattern ' + ptxt)
+                kind, var = m.group(1), m.group(2)
+                if kind == 'Operator':
+                    if text_of(rhs[:7]) != 'match %s . as_ref ( ) {' % var: raise Untranslatable('operator arm')
+                    e = match_close(rhs, 6)
+                    for ipats, irhs in split_arms(rhs[7:e]):
+                        rows.append('  | %s => %s' % (' | '.join(op_pattern(p_) for p_ in ipats), bool_rhs(irhs, fname)))
+                elif kind == 'Action':
+                    if rhs and rhs[0].v == 'match':
+                        if text_of(rhs[:3]) != 'match %s {' % var: raise Untranslatable('action arm')
+                        e = match_close(rhs, 2)
+                        inner = []
+                        for ipats, irhs in split_arms(rhs[3:e]):
+                            if len(ipats) == 1 and text_of(ipats[0]) == '_':
+                                inner.append('    | _ => %s' % bool_rhs(irhs, fname)); continue
+                            lps = [lean_pattern(p_) for p_ in ipats]
+                            if text_of(irhs) in ('true', 'false'):
+                                inner.append('    | %s => %s' % (' | '.join(l[0] for l in lps), text_of(irhs)))
+                            elif text_of(irhs) == PF_DELEG and len(lps) == 1:
+                                inner.append('    | %s => FV.Action.complexFrames (%s)' % (lps[0][0], lps[0][0]))
+                                report['delegated_arms'][fname] = report['delegated_arms'].get(fname, 0) + 1
+                            else:
+                                raise Untranslatable('action arm value ' + text_of(irhs)[:200])
+                        rows.append('  | .action %s =>\n    match %s with\n%s' % (var, var, '\n'.join(inner)))
+                    else:
+                        rows.append('  | .action %s => %s' % (var, bool_rhs(rhs, fname)))
+                else:
+                    raise Untranslatable('tree pattern kind ' + kind)
+            return 'def %s : Expr → Bool\n%s' % (lean_name, '\n'.join(rows))
+        return f
+    emit('hasAction', 'Expression::action', 'ast.rs', tree_fn('hasAction', 'Expression::action'))
+    emit('complexFrames', 'Expression::complex_frames', 'ast.rs', tree_fn('complexFrames', 'Expression::complex_frames'))
+
+    # ---- impl TargetScheme for Expression / Operator: the recursive code generator
+    def stmt_seq(rhs, vars_):
+        """{ push_str("a"); x.compile(buffer, ctx)?; push_str("b"); ... } -> list of ('s', text) | ('c', var)"""
+        if not (rhs and rhs[0].v == '{' and rhs[-1].v == '}'): raise Untranslatable('operator arm is not a block')
+        txt = text_of(rhs[1:-1])
+        out_ = []
+        for st_ in [x.strip() for x in txt.split(' ; ') if x.strip().rstrip(';').strip()]:
+            st_ = st_.rstrip(';').strip()
+            m = re.fullmatch(r'buffer \. push_str \( ("(?:[^"\\]|\\.)*") \)', st_)
+            if m: out_.append(('s', json.loads(m.group(1)))); continue
+            m = re.fullmatch(r'(\w+) \. compile \( buffer , ctx \) \?', st_)
+            if m and m.group(1) in vars_: out_.append(('c', m.group(1))); continue
+            raise Untranslatable('operator statement ' + st_)
+        return out_
+
+    def expr_compile(_it):
+        its = items_of('scheme/target_scheme.rs')
+        op, ex = its.get('Operator::compile'), its.get('Expression::compile')
+        if op is None or ex is None: raise Untranslatable('Operator::compile / Expression::compile not found')
+        rows = []
+        # Expression::compile: dispatch
+        a, b = find_match(ex.body, 'self')
+        if ex.body[b + 1:]: raise Untranslatable('Expression::compile tail')
+        disp = {}
+        for pats, rhs in split_arms(ex.body[a:b]):
+            m = re.fullmatch(r'Expression :: (\w+) \( (\w+) \)', text_of(pats[0]))
+            if not m or len(pats) != 1: raise Untranslatable('Expression::compile pattern')
+            disp[m.group(1)] = (m.group(2), text_of(rhs))
+        want = {'Test': '%s . compile ( buffer , ctx )', 'Action': '%s . compile ( buffer , ctx )',
+                'Operator': '%s . as_ref ( ) . compile ( buffer , ctx )', 'Positional': '%s . compile ( buffer , ctx )'}
+        for k_, w_ in want.items():
+            if k_ not in disp or disp[k_][1] != w_ % disp[k_][0]: raise Untranslatable('Expression::compile arm ' + k_)
+        if disp.get('Global', ('', ''))[1] != 'unreachable ! ( )': raise Untranslatable('Expression::compile Global arm')
+        pos = its.get('PositionalOption::compile')
+        if pos is None or text_of(pos.body) != 'Err ( CompileError :: UnsupportedOption ( format ! ( "{self:?}" ) ) )':
+            raise Untranslatable('PositionalOption::compile changed')
+        rows.append('  | .test t, st => compileTest clk t st')
+        rows.append('  | .action a, st => compileAction a st')
+        rows.append('  | .positional p, st => FV.compileExpr clk (.positional p) st')
+        rows.append('  | .global _, _ => .panic (%s)' % lean_cl('target_scheme.rs:unreachable-global'))
+        # Operator::compile
+        a, b = find_match(op.body, 'self')
+        if text_of(op.body[b + 1:]) != 'Ok ( ( ) )': raise Untranslatable('Operator::compile tail')
+        for pats, rhs in split_arms(op.body[a:b]):
+            if text_of(rhs) == 'unreachable ! ( )':
+                for p_ in pats:
+                    pl = op_pattern(p_)
+                    rows.append('  | %s, _ => .panic (%s)' % (' '.join([pl.split(' ')[0]] + ['_'] * (len(pl.split(' ')) - 1)), lean_cl('target_scheme.rs:unreachable-precedence')))
+                continue
+            for p_ in pats:
+                pl = op_pattern(p_)
+                vars_ = pl.split(' ')[1:]
+                seq = stmt_seq(rhs, vars_)
+                shape = ''.join(k for k, _ in seq)
+                if shape == 'scs' and len(vars_) == 1:
+                    rows.append('  | %s, st => seq1 (%s) (%s) (compileExpr clk %s st)' % (pl, lean_cl(seq[0][1]), lean_cl(seq[2][1]), seq[1][1]))
+                elif shape == 'scscs' and len(vars_) == 2 and seq[1][1] == vars_[0] and seq[3][1] == vars_[1]:
+                    rows.append('  | %s, st => seq2 (%s) (%s) (%s) (compileExpr clk %s st) (compileExpr clk %s)'
+                                % (pl, lean_cl(seq[0][1]), lean_cl(seq[2][1]), lean_cl(seq[4][1]), vars_[0], vars_[1]))
+                else:
+                    raise Untranslatable('operator arm shape ' + shape)
+        report['delegated_arms']['Expression::compile'] = 1
+        return 'def compileExpr (clk : Nat → Nat) : Expr → CState → CRes (Text × CState)\n%s' % '\n'.join(rows)
+    emit('compileExpr', 'Expression::compile', 'scheme/target_scheme.rs', expr_compile)
+    emit('compile', 'compile', 'scheme/mod.rs', compile_fn)
+
+    # ---- error.rs: explain table, SyntaxContext::new fold step, the dispatch decision; lib.rs: RunOptions::update
+    def explain_fn(it):
+        body = it.body
+        a, b = find_match(body, 'error_reference')
+        if text_of(body[b + 1:]) != '. into ( )': raise Untranslatable('explain tail')
+        rows, dflt = [], False
+        for pats, rhs in split_arms(body[a:b]):
+            if len(pats) == 1 and len(pats[0]) == 1 and pats[0][0].k == 'str' and len(rhs) == 1 and rhs[0].k == 'str':
+                rows.append('(%s, %s)' % (lean_cl(pats[0][0].v), lean_cl(rhs[0].v)))
+            elif len(pats) == 1 and len(pats[0]) == 1 and pats[0][0].k == 'id' and text_of(rhs) == pats[0][0].v:
+                dflt = True
+            else: raise Untranslatable('explain arm ' + text_of(pats[0]))
+        if not dflt: raise Untranslatable('explain default arm')
+        return 'def explainTable : List (Text × Text) :=\n  [ %s ]' % ',\n    '.join(rows)
+    emit('explainTable', 'explain', 'find_parser/error.rs', explain_fn)
+
+    def step_fn(it):
+        txt = text_of(it.body)
+        m = re.fullmatch(r'raw \. iter \( \) \. fold \( Self :: default \( \) , \| mut acc , ctx \| \{ match ctx \{ (.*) \} ; acc \} \)', txt)
+        if not m: raise Untranslatable('SyntaxContext::new shape changed')
+        a, b = find_match(it.body, 'ctx')
+        label_rows, exp_row = [], None
+        for pats, rhs in split_arms(it.body[a:b]):
+            pt = text_of(pats[0])
+            rt = text_of(rhs).strip()
+            if rt.startswith('{') and rt.endswith('}'): rt = rt[1:-1].strip()
+            mm = re.fullmatch(r'StrContext :: Label \( s \) if (.*)', pt)
+            if mm:
+                g = mm.group(1)
+                m1 = re.fullmatch(r'\* s == ("(?:[^"\\]|\\.)*")', g)
+                m2 = re.fullmatch(r'acc \. expecting_(\w+) \( \)', g)
+                if m1: cnd = 's = %s' % lean_cl(json.loads(m1.group(1)))
+                elif m2: cnd = 'expecting acc.%s' % m2.group(1)
+                else: raise Untranslatable('guard ' + g)
+                a1 = re.fullmatch(r'acc \. (\w+) = Some \( String :: new \( \) \)', rt)
+                a2 = re.fullmatch(r'acc \. (\w+) = Some \( String :: from \( \* s \) \)', rt)
+                if a1: act = '{ acc with %s := some [] }' % a1.group(1)
+                elif a2: act = '{ acc with %s := some s }' % a2.group(1)
+                else: raise Untranslatable('assignment ' + rt)
+                label_rows.append((cnd, act))
+            elif pt == 'StrContext :: Expected ( StrContextValue :: Description ( d ) )':
+                a3 = re.fullmatch(r'acc \. (\w+) = Some \( String :: from \( \* d \) \)', rt)
+                if not a3: raise Untranslatable('assignment ' + rt)
+                exp_row = '{ acc with %s := some d }' % a3.group(1)
+            elif pt == '_' and rt == '( )':
+                pass
+            else: raise Untranslatable('fold arm ' + pt)
+        if exp_row is None: raise Untranslatable('Expected arm missing')
+        chain = ''.join('if %s then %s\n    else ' % (c, a_) for c, a_ in label_rows) + 'acc'
+        return ('def contextStep (acc : SyntaxContext) (c : Ctx) : SyntaxContext :=\n  match c with\n  | .label s =>\n    %s\n  | .expected d => %s' % (chain, exp_row))
+    emit('contextStep', 'SyntaxContext::new', 'find_parser/error.rs', step_fn)
+
+    def dispatch_fn(it):
+        txt = text_of(it.body)
+        head = ('let mut context_list = ctxerr . context ( ) . collect :: < Vec < _ > > ( ) ; context_list . reverse ( ) ; '
+                'log :: debug ! ( "Raw error context: {context_list:?}" ) ; let context = SyntaxContext :: new ( & context_list ) ; '
+                'log :: debug ! ( "Derived context: {context:#?}" ) ; '
+                'let next = String :: parse . parse_next ( input ) . unwrap_or ( String :: from ( "" ) ) ; '
+                'match ( context . test , context . action , context . global , context . description , ) {')
+        if not txt.startswith(head) or not txt.endswith('} . into ( )'): raise Untranslatable('dispatch shape changed')
+        # the decision table
+        i0 = [i for i, t in enumerate(it.body) if t.k == 'id' and t.v == 'match'][0]
+        ob = [i for i in range(i0, len(it.body)) if it.body[i].v == '{'][0]
+        cb = match_close(it.body, ob)
+        rows = []
+        for pats, rhs in split_arms(it.body[ob + 1:cb]):
+            pt = text_of(pats[0])
+            if pt == '_': lp = '_, _, _, _'
+            else:
+                mm = re.fullmatch(r'\( (.*) \)', pt)
+                comps = [c.strip() for c in mm.group(1).split(',')]
+                def comp(c):
+                    if c == '_': return '_'
+                    if c == 'None': return 'none'
+                    m3 = re.fullmatch(r'Some \( (\w+) \)', c)
+                    if m3: return 'some ' + m3.group(1)
+                    raise Untranslatable('dispatch pattern ' + c)
+                lp = ', '.join(comp(c) for c in comps)
+            m4 = re.fullmatch(r'SyntaxError :: (\w+) \( (.*) \)', text_of(rhs))
+            if not m4: raise Untranslatable('dispatch value ' + text_of(rhs))
+            args = []
+            for x in m4.group(2).split(' , '):
+                x = x.strip()
+                m5 = re.fullmatch(r'explain \( & (\w+) \)', x)
+                args.append('(explain %s)' % m5.group(1) if m5 else x)
+            rows.append('  | %s => .%s %s' % (lp, lower_first(m4.group(1)), ' '.join(args)))
+        return ('def dispatchDecision (test action global description : Option Text) (next : Text) : ParseError :=\n  match test, action, global, description with\n%s' % '\n'.join(rows))
+    emit('dispatchDecision', 'ParserError::dispatch', 'find_parser/error.rs', dispatch_fn)
+
+    def update_fn(it):
+        a, b = find_match(it.body, 'option')
+        if it.body[b + 1:]: raise Untranslatable('update tail')
+        rows = []
+        for pats, rhs in split_arms(it.body[a:b]):
+            pt, rt = text_of(pats[0]), text_of(rhs)
+            if pt == 'ast :: GlobalOption :: Depth' and rt == 'self . depth = true': rows.append('  | .depth => some { o with depth := true }')
+            elif pt == 'ast :: GlobalOption :: Threads ( value )' and rt == 'self . threads = Some ( * value )': rows.append('  | .threads value => some { o with threads := some value }')
+            elif pt == '_' and rt == 'unreachable ! ( )': rows.append('  | _ => none')
+            else: raise Untranslatable('update arm %s => %s' % (pt, rt))
+        return 'def runOptionsUpdate (o : RunOptions) : GlobalOption → Option RunOptions\n%s' % '\n'.join(rows)
+    emit('runOptionsUpdate', 'RunOptions::update', 'lib.rs', update_fn)
+
+    # ---- manager.rs: scheme_escape, is_pattern, terminator_escape; target_scheme.rs: template_escape
+    def fmt_spec_pieces(fmt, args):
+        """format string with {} {:x} {:02x} placeholders; args are Lean NUMBER expressions for hex specs, texts for {}."""
+        out_, i, k, cur = [], 0, 0, ''
+        while i < len(fmt):
+            if fmt[i] == '{':
+                j = fmt.index('}', i); spec = fmt[i + 1:j]
+                if cur: out_.append(lean_cl(cur)); cur = ''
+                if spec == ':x': out_.append('natToHex (%s)' % args[k])
+                elif spec == ':02x': out_.append('natToHex02 (%s)' % args[k])
+                elif spec == '': out_.append(args[k])
+                else: raise Untranslatable('format spec {%s}' % spec)
+                k += 1; i = j + 1
+            else: cur += fmt[i]; i += 1
+        if cur: out_.append(lean_cl(cur))
+        return ' ++ '.join(out_)
+
+    def scheme_escape_fn(it):
+        txt = text_of(it.body)
+        m = re.fullmatch(r'let mut out = String :: with_capacity \( input \. len \( \) \) ; for c in input \. chars \( \) \{ match c \{ (.*) \} \} out', txt)
+        if not m: raise Untranslatable('scheme_escape shape changed')
+        a, b = find_match(it.body, 'c')
+        rows, last = [], None
+        for pats, rhs in split_arms(it.body[a:b]):
+            pt, rt = text_of(pats[0]), text_of(rhs)
+            mp = re.fullmatch(r'out \. push_str \( ("(?:[^"\\]|\\.)*") \)', rt)
+            if len(pats[0]) == 1 and pats[0][0].k == 'chr' and mp:
+                rows.append(('c = %s' % lean_char(pats[0][0].v), lean_cl(json.loads(mp.group(1)))))
+            elif pt == 'c if c . is_control ( )':
+                mf = re.fullmatch(r'out \. push_str \( & format ! \( ("(?:[^"\\]|\\.)*") , c as u32 \) \)', rt)
+                if not mf: raise Untranslatable('control arm ' + rt)
+                rows.append(('isControl c', fmt_spec_pieces(json.loads(mf.group(1)), ['c.toNat'])))
+            elif pt == 'c' and rt == 'out . push ( c )':
+                last = '[c]'
+            else: raise Untranslatable('scheme_escape arm ' + pt)
+        if last is None: raise Untranslatable('scheme_escape default arm')
+        return ('def escapeChar (c : Char) : Text :=\n  ' + ''.join('if %s then %s\n  else ' % r_ for r_ in rows) + last +
+                '\n\n/-- the `for c in input.chars()` loop -/\ndef schemeEscape (s : Text) : Text := s.flatMap escapeChar')
+    emit('schemeEscape', 'scheme_escape', 'scheme/manager.rs', scheme_escape_fn)
+
+    def is_pattern_fn(it):
+        m = re.fullmatch(r"input \. contains \( ('.') \) \| input \. contains \( ('.') \) \| input \. contains \( ('.') \)", text_of(it.body))
+        if not m: raise Untranslatable('is_pattern shape changed')
+        return 'def isPattern (s : Text) : Bool := ' + ' || '.join("containsChar s %s" % g for g in m.groups())
+    emit('isPattern', 'is_pattern', 'scheme/manager.rs', is_pattern_fn)
+
+    def term_escape_fn(it):
+        a, b = find_match(it.body, 'terminator')
+        rows = []
+        for pats, rhs in split_arms(it.body[a:b]):
+            pt, rt = text_of(pats[0]), text_of(rhs)
+            if pt == 'None' and string_rhs(rhs) is not None: rows.append('  | none => %s' % lean_cl(string_rhs(rhs)))
+            elif pt == 'Some ( value )':
+                mf = re.fullmatch(r'format ! \( ("(?:[^"\\]|\\.)*") , value as u8 \)', rt)
+                if not mf: raise Untranslatable('terminator arm ' + rt)
+                rows.append('  | some value => %s' % fmt_spec_pieces(json.loads(mf.group(1)), ['value.toNat % 256']))
+            else: raise Untranslatable('terminator pattern ' + pt)
+        return 'def terminatorEscape : Option Char → Text\n' + '\n'.join(rows)
+    emit('terminatorEscape', 'terminator_escape', 'scheme/manager.rs', term_escape_fn)
+
+    def template_escape_fn(it):
+        if text_of(it.body) != "scheme_escape ( input ) . replace ( '~' , \"~~\" )": raise Untranslatable('template_escape changed')
+        return 'def templateEscape (s : Text) : Text := FV.replaceTilde (schemeEscape s)'
+    emit('templateEscape', 'template_escape', 'scheme/target_scheme.rs', template_escape_fn)
+    # dependencies first, so that every generated definition uses the generated ones below it
+    for name in ['schemeEscape', 'isPattern', 'terminatorEscape', 'templateEscape', 'Size.mult', 'TimeSpec.secs', 'FileType.octal', 'permValue', 'formatCmp', 'sizeMatching', 'compilePermCheck',
+                 'specialLiteral', 'placeholder', 'snippetBody', 'hasAction', 'complexFrames', 'compileTest', 'compileAction',
+                 'compileExpr', 'compile', 'scheme', 'explainTable', 'contextStep', 'dispatchDecision', 'runOptionsUpdate']:
+        out += chunks.get(name, ['-- UNTRANSLATED %s: not attempted' % name])
     return out, report
 
 
 TABLES_HEADER = """import FindVerif.Model.Compile
+import FindVerif.Model.Parse
 /-
   GENERATED by tools/rs2lean.py from %s/src/{ast.rs, permission_flags.rs, find_parser/permission.rs,
   scheme/target_scheme.rs} -- do not edit.  The constant tables of the crate: one Lean match arm per
@@ -1293,6 +1894,31 @@ open FV
 /-- `compile_time_comp(buffer, field, cmp)` as used by `Test::compile`: one clock reading is consumed. -/
 def timeT (clk : Nat → Nat) (st : CState) (field : Text) (c : Comparison TimeSpec) : CRes (Text × CState) :=
   .ok (compileTimeComp (clk st.reads) field c, { st with reads := st.reads + 1 })
+
+/-- `let printer = ctx.get_…(..); buffer.push_str(&format!(TEMPLATE))`. -/
+def viaT (st : CState) (tpl : Text → Text) (r : Text × Manager) : CRes (Text × CState) :=
+  .ok (tpl r.1, { st with mgr := r.2 })
+
+/-- `let printer = ctx.get_…(..); push_str(PRE); elements.compile(buffer, ctx)?; push_str(POST)`. -/
+def viaFormatT (st : CState) (tpl : Text → Text → Text) (r : Text × Manager) (es : List FormatElement) : CRes (Text × CState) :=
+  match compileFormat es with
+  | .error x => .err x
+  | .ok f => .ok (tpl r.1 f, { st with mgr := r.2 })
+
+/-- `push_str(PRE); e.compile(buffer, ctx)?; push_str(POST)`. -/
+def seq1 (pre post : Text) (r : CRes (Text × CState)) : CRes (Text × CState) :=
+  match r with
+  | .ok (t, st') => .ok (pre ++ t ++ post, st')
+  | e => e
+
+/-- `push_str(PRE); l.compile(..)?; push_str(MID); r.compile(..)?; push_str(POST)`. -/
+def seq2 (pre mid post : Text) (l : CRes (Text × CState)) (r : CState → CRes (Text × CState)) : CRes (Text × CState) :=
+  match l with
+  | .ok (tl, st1) =>
+    match r st1 with
+    | .ok (tr, st2) => .ok (pre ++ tl ++ mid ++ tr ++ post, st2)
+    | e => e
+  | e => e
 
 /-- `buffer.push_str(&format!(TEMPLATE, ctx.get_matcher(s, ci)))`. -/
 def matchT (st : CState) (tpl : Text → Text) (s : Text) (ci : Bool) : CRes (Text × CState) :=
